@@ -5,6 +5,7 @@ package simtime
 import (
 	"time"
 
+	"verif.local/sim/simchan"
 	"verif.local/sim/simrt"
 )
 
@@ -31,4 +32,126 @@ func Sleep(d time.Duration) {
 	if d > 0 {
 		s.SleepUntil(s.Now() + int64(d))
 	}
+}
+
+// ---------------------------------------------------------------- timers
+
+// Timer mirrors time.Timer. Under a simulation its channel is fed by a simulated goroutine
+// that sleeps on the discrete-event clock.
+type Timer struct {
+	C    <-chan time.Time
+	c    chan time.Time
+	real *time.Timer
+	f    func()
+	gen  int
+	live bool
+}
+
+func NewTimer(d time.Duration) *Timer {
+	if simrt.Current() == nil {
+		rt := time.NewTimer(d)
+		return &Timer{C: rt.C, real: rt}
+	}
+	c := make(chan time.Time, 1)
+	t := &Timer{C: c, c: c}
+	t.arm(d)
+	return t
+}
+
+func AfterFunc(d time.Duration, f func()) *Timer {
+	if simrt.Current() == nil {
+		return &Timer{real: time.AfterFunc(d, f)}
+	}
+	t := &Timer{f: f}
+	t.arm(d)
+	return t
+}
+
+func After(d time.Duration) <-chan time.Time { return NewTimer(d).C }
+
+func (t *Timer) arm(d time.Duration) {
+	s := simrt.Current()
+	t.gen++
+	gen := t.gen
+	t.live = true
+	at := s.Now() + int64(d)
+	simrt.Go(func() {
+		if d > 0 {
+			s.SleepUntil(at)
+		}
+		if !t.live || t.gen != gen {
+			return
+		}
+		t.live = false
+		if t.f != nil {
+			t.f()
+			return
+		}
+		simchan.Select(true, simchan.S(t.c, epoch.Add(time.Duration(s.Now()))))
+	})
+}
+
+func (t *Timer) Stop() bool {
+	if t.real != nil {
+		return t.real.Stop()
+	}
+	simrt.Current().Yield("timer-stop", "")
+	was := t.live
+	t.live = false
+	return was
+}
+
+func (t *Timer) Reset(d time.Duration) bool {
+	if t.real != nil {
+		return t.real.Reset(d)
+	}
+	simrt.Current().Yield("timer-reset", "")
+	was := t.live
+	t.arm(d)
+	return was
+}
+
+// Ticker mirrors time.Ticker. A simulated ticker stops by itself once the root goroutine of
+// the simulated process has returned, so that a forgotten ticker does not keep a finished
+// run alive.
+type Ticker struct {
+	C       <-chan time.Time
+	real    *time.Ticker
+	stopped bool
+}
+
+func NewTicker(d time.Duration) *Ticker {
+	s := simrt.Current()
+	if s == nil {
+		rt := time.NewTicker(d)
+		return &Ticker{C: rt.C, real: rt}
+	}
+	if d <= 0 {
+		panic("non-positive interval for NewTicker")
+	}
+	c := make(chan time.Time, 1)
+	t := &Ticker{C: c}
+	next := s.Now() + int64(d)
+	simrt.Go(func() {
+		for !t.stopped && !s.RootDone() {
+			s.SleepUntil(next)
+			next += int64(d)
+			if t.stopped {
+				return
+			}
+			simchan.Select(true, simchan.S(c, epoch.Add(time.Duration(s.Now()))))
+		}
+	})
+	return t
+}
+
+func Tick(d time.Duration) <-chan time.Time { return NewTicker(d).C }
+
+func (t *Ticker) Stop() {
+	if t.real != nil {
+		t.real.Stop()
+		return
+	}
+	simrt.Current().Yield("ticker-stop", "")
+	t.stopped = true
 }
